@@ -65,6 +65,19 @@ func lexExpr(src string) ([]tok, error) {
 			i++
 			continue
 		}
+		if c == '"' {
+			// a string literal stands for its identity number (fmtID): used to name format strings
+			j := i + 1
+			for j < len(src) && src[j] != '"' {
+				j++
+			}
+			if j >= len(src) {
+				return nil, fmt.Errorf("unterminated string literal in %q", src)
+			}
+			out = append(out, tok{"num", strconv.FormatUint(fmtID(src[i+1:j]), 10)})
+			i = j + 1
+			continue
+		}
 		if c >= '0' && c <= '9' {
 			j := i
 			for j < len(src) && (src[j] >= '0' && src[j] <= '9' || src[j] >= 'a' && src[j] <= 'f' || src[j] >= 'A' && src[j] <= 'F' || src[j] == 'x' || src[j] == 'X' || src[j] == '_') {
@@ -98,6 +111,16 @@ func lexExpr(src string) ([]tok, error) {
 	}
 	out = append(out, tok{"eof", ""})
 	return out, nil
+}
+
+// fmtID: the number a string literal (a format string) stands for in contracts and in the fmt model
+func fmtID(s string) uint64 {
+	h := uint64(14695981039346656037)
+	for i := 0; i < len(s); i++ {
+		h ^= uint64(s[i])
+		h *= 1099511628211
+	}
+	return h & 0x3fffffffffffffff
 }
 
 type eparser struct {
